@@ -174,6 +174,11 @@ def main(argv=None):
     reported = []
     known_lines = {}
     seen_classes = {}
+    for r in results:
+        for kid in r.get("known", {}):
+            for f in findings:
+                if f["id"] == kid:
+                    known_lines.setdefault(kid, f)
     for r in viols:
         kf = match_known(prop, r["violation"], findings)
         if kf is not None:
